@@ -144,6 +144,13 @@ func (h *HyperLogLogRedis) Import(data []byte, withNewKey bool) error {
 	} else {
 		h.key = g.Key
 	}
+	metadata := make(map[string]interface{})
+	metadata["numRegisters"] = h.numRegisters
+	metadata["key"] = h.key
+	err = getRedisClient().HSet(context.Background(), h.metadataKey, metadata).Err()
+	if err != nil {
+		return fmt.Errorf("gostatix: error importing hyperloglog redis, error: %v", err)
+	}
 	return h.importRegisters(g.Registers)
 }
 
@@ -159,6 +166,7 @@ func (h *HyperLogLogRedis) importRegisters(registers []uint8) error {
 		for i=1, size do
 			registers[i] = tonumber(ARGV[i])
 		end
+		redis.call('DEL', key)
 		redis.call('RPUSH', key, unpack(registers))
 		return true
 	`)
